@@ -58,6 +58,58 @@ Theorem C12_cold_orphan_refuted :
 Proof. exact cold_orphan_twice. Qed.
 Print Assumptions C12_cold_orphan_refuted.
 
+(* OVERLAPPING MIGRATIONS (the code since 6b8445f).  Nothing serialises migration CYCLES (a manual
+   POST /api/v1/tiering/migrate can run while the scheduled cycle does), but MigrateFile registers
+   the path in Manager.migrating and refuses a second call for a path in progress.  For EVERY
+   schedule of two MigrateFile calls for the same hot-tracked file (each call is started by its
+   first scheduled step; every interleaving and every prefix - a prefix is a crash), and for
+   EVERY fault of either call (UpdateTier failing with a working or a failing rollback), the
+   invariant of C12_readable is kept: every file stays completely readable from the tier its
+   metadata names.  When both calls have finished and no rollback failed, no orphan exists and
+   each row is visible exactly once. *)
+Theorem C12_overlap_safe :
+  forall F0 p sch fa fb s, NoDup (keys F0) -> tinv F0 s -> lookup p (t_meta s) = Some Hot ->
+  let '(a, b, s') := run_gsched p sch (mkG false (mkInst Pc0 fa)) (mkG false (mkInst Pc0 fb)) s in
+  tinv F0 s' /\
+  (forall q r, lookup q F0 = Some r -> forall x, In x r -> In x (tvisible s')) /\
+  (g_started a = true -> g_started b = true -> mi_pc (g_inst a) = PcDone -> mi_pc (g_inst b) = PcDone ->
+   fa <> Some false -> fb <> Some false -> orphan_free s -> Permutation (tvisible s') (rowsof F0)).
+Proof.
+  intros F0 p sch fa fb s HF I Hm. assert (H := serialized_overlap_safe F0 p sch fa fb s I Hm).
+  destruct (run_gsched p sch (mkG false (mkInst Pc0 fa)) (mkG false (mkInst Pc0 fb)) s) as [[a b] s'].
+  destruct H as [I' Ho]. split; [exact I'|]. split.
+  - intros q r Hr. apply (readable F0 s' q r I' Hr).
+  - intros Sa Sb Da Db Hfa Hfb Hof. apply once; [exact HF|exact I'|apply Ho; assumption].
+Qed.
+Print Assumptions C12_overlap_safe.
+
+(* The variant BEFORE 6b8445f (both calls run, interleaved step by step) was safe only without
+   step failures ... *)
+Theorem C12_unserialized_overlap_safe :
+  forall F0 p sch s, NoDup (keys F0) -> tinv F0 s -> lookup p (t_meta s) = Some Hot ->
+  let '(a, b, s') := run_sched p sch (mkInst Pc0 None) (mkInst Pc0 None) s in
+  tinv F0 s' /\
+  (mi_pc a = PcDone -> mi_pc b = PcDone -> orphan_free s -> Permutation (tvisible s') (rowsof F0)).
+Proof.
+  intros F0 p sch s HF I Hm. assert (H := overlap_safe F0 p sch s I Hm).
+  destruct (run_sched p sch (mkInst Pc0 None) (mkInst Pc0 None) s) as [[a b] s'].
+  destruct H as [I' Ho]. split; [exact I'|].
+  intros Da Db Hof. apply once; [exact HF|exact I'|apply Ho; assumption].
+Qed.
+Print Assumptions C12_unserialized_overlap_safe.
+
+(* ... and lost the file when the UpdateTier of one call failed: its rollback deleted the cold
+   copy both calls shared, the other call committed tier = cold and deleted the hot source
+   (the defect fixed by 6b8445f; the serialised system above runs the same schedule safely). *)
+Theorem C12_unserialized_overlap_rollback_refuted :
+  let F := [(1%N, [10%N; 11%N])] in
+  let old := overlap_unserialized 1%N [true; true; false; false; true] None (Some true) (tinit F) in
+  let new := overlap 1%N [true; false; true; true; false; false; true] None (Some true) (tinit F) in
+  (t_hot old = [] /\ t_cold old = [] /\ t_meta old = [(1%N, Cold)] /\ readableb F old = false) /\
+  (readableb F new = true /\ onceb F new = true).
+Proof. split; [exact overlap_rollback_loses_file|vm_compute; auto]. Qed.
+Print Assumptions C12_unserialized_overlap_rollback_refuted.
+
 (* Non-vacuity: the witness meets the hypotheses; the same history with the crash one step
    later (after the metadata update) is inside the guard and reconciliation does repair it;
    a crash-free history is clean. *)
